@@ -88,6 +88,36 @@ class Base:
         for t, o in self.objs.items():
             self.find_untyped_ok[t] = sum(1 for x in allnamed if x.name == o.name) == 1
 
+        # objects of the base model a sync entry matches statically: (parent uuid, list attribute, type, uuid, name);
+        # the name is unique in that list, and no generated object ever gets a name of the base model
+        self.found = []
+        for pk, attr, t in ((m.la.function_package, "functions", "F"), (m.la.component_package, "components", "C")):
+            sib = [x.name for x in getattr(pk, attr)]
+            for x in getattr(pk, attr):
+                if x.uuid == self.key[t] and sib.count(x.name) == 1:
+                    self.found.append((pk.uuid, attr, t, x.uuid, x.name))
+        for t, o in self.objs.items():
+            for attr, ct in SCHEMA[t]["lists"].items():
+                sib = [x.name for x in getattr(o, attr)]
+                n = 0
+                for x in getattr(o, attr):
+                    if x.name and sib.count(x.name) == 1 and n < 3 and type(x).__name__ == TYPEHINT[ct]:
+                        self.found.append((o.uuid, attr, ct, x.uuid, x.name))
+                        n += 1
+        # what the string attributes of those objects hold in the base model (the model only knows written cells)
+        self.init_vals = {}
+        for c in self.found:
+            o = m.by_uuid(c[3])
+            for a in STRS:
+                self.init_vals[(c[3], a)] = str(getattr(o, a) or "")
+        # functions of the base model that a list-valued `set` can mention by !uuid / !find
+        lf = m.search("LogicalFunction")
+        self.extraF = []
+        for f in [m.la.root_function] + [f for f in m.la.all_functions if f.uuid != self.key["F"] and not f.functions][:5]:
+            typed = sum(1 for x in lf if x.name == f.name) == 1
+            untyped = sum(1 for x in allnamed if x.name == f.name) == 1
+            self.extraF.append((f.uuid, f.name, typed, untyped))
+
     def load(self):
         import capellambse
         return capellambse.MelodyModel(self.path)
@@ -117,11 +147,23 @@ class Ref:
         return [self.p] if self.kind == "prom" else (list(self.ps) if self.kind == "find" else [])
 
 
+def sv_needs(v):
+    if isinstance(v, Ref):
+        return v.needs()
+    if isinstance(v, list):
+        return [p for r in v for p in r.needs()]
+    return []
+
+
 def sval_val(v):
+    if isinstance(v, list):          # a list of references (list-valued `set`)
+        return [2, [r.val() for r in v]]
     return [1, v.val()] if isinstance(v, Ref) else [0, v]
 
 
 def sval_yaml(v):
+    if isinstance(v, list):
+        return [r.yaml() for r in v]
     return v.yaml() if isinstance(v, Ref) else v
 
 
@@ -187,6 +229,10 @@ class SItem:
         return d
 
     def deferrable(self):
+        # a matched entry waits for its find keys only (its `set` values are postponed on their own); an entry that
+        # creates its object waits for the scalar / reference values of find and set
+        if self.found:
+            return any(sv_needs(v) for _, v in self.find)
         return any(isinstance(v, Ref) and v.needs() for _, v in self.find + self.set)
 
 
@@ -246,6 +292,8 @@ class Plan:
         self.stable = True                 # no list gets a deferrable non-last member
         self.promise_target = {}           # p -> key
         self.ref_expect = []               # (owner key, target key)
+        self.list_expect = []              # (owner key, attr, [member keys in the order of the `set` list])
+        self.found_keys = []               # uuids of base objects matched by sync entries
         self.features = set()
 
 
@@ -307,6 +355,28 @@ def gen_plan(rng, base: Base, n: int, *, stable=True, malform=None, feature_bias
         if stable:
             k = min(k, 1)
         c.reflists["allocated_functions"] = [free_f.pop() for _ in range(min(k, len(free_f)))]
+    # 2b. a list-valued `set`: the allocated functions of a component given as ONE list that mixes promises,
+    #     !uuid references and !find directives in every position (the whole `set` waits, the order is kept)
+    setlists = []          # (target Obj | base tuple, [member Obj | ("basef", index into base.extraF)])
+    if rng.random() < (feature_bias or {}).get("set-list", 0.5):
+        comps = [c for c in by_type("C") if not c.reflists.get("allocated_functions")]
+        target = rng.choice(comps) if comps and rng.random() < 0.6 else bases["C"]
+        k = rng.choice([1, 2, 2, 3, 3, 4])
+        nprom = rng.choice([0] + list(range(1, k + 1)) * 2)
+        nprom = max(nprom, k - len(base.extraF))
+        while len(free_f) < nprom:
+            par = rng.choice([bases["F"]] + by_type("F"))
+            o = Obj(len(objs), fresh_name(len(objs)), "F", par, "functions")
+            objs.append(o)
+            if isinstance(par, Obj):
+                par.children.setdefault("functions", []).append(o)
+            free_f.append(o)
+        members = [free_f.pop() for _ in range(nprom)]
+        bf = list(range(len(base.extraF)))
+        rng.shuffle(bf)
+        members += [("basef", i) for i in bf[: k - nprom]]
+        rng.shuffle(members)
+        setlists.append((target, members))
     # 3. strings; some are set late by a separate instruction, some references too
     for o in objs:
         for a in STRS:
@@ -469,6 +539,38 @@ def gen_plan(rng, base: Base, n: int, *, stable=True, malform=None, feature_bias
                 mem.append(Item(ref=ref_to(x, allow_find=False)))
                 plan.ref_expect.append((o.key, x.key))
             by_parent.setdefault(id(o), (o, []))[1].append(("extend", "allocated_functions", order_members(mem)))
+    # sync entries that match an object of the base model (found statically), some declared as a promise
+    found_promise: dict = {}      # uuid -> promise id
+    found_item: dict = {}         # uuid -> (Instr, SItem)
+    cand_of = {c[3]: c for c in base.found}
+
+    def add_found(cand, pid, sets, *, into=None):
+        par_uuid, attr, typ, uuid, name = cand
+        x = SItem(True, pid, name, typ, [], sets, hint=rng.random() < 0.5, key=uuid)
+        x._obj = None
+        if into is not None:
+            into.sync[0][1].append(x)          # a second entry in the same list of the same instruction
+            return into, x
+        ins = Instr(Ref("obj", par_uuid))
+        ins.sync.append((attr, [x]))
+        instrs.append(ins)
+        if uuid not in plan.found_keys:
+            plan.found_keys.append(uuid)
+        return ins, x
+
+    nfound = rng.choice([0, 0, 1, 1, 2])
+    for cand in rng.sample(base.found, min(nfound, len(base.found))):
+        pid = None
+        if rng.random() < 0.6:
+            pid_counter[0] += 1
+            pid = pid_counter[0]
+            plan.promise_target[pid] = cand[3]
+            found_promise[cand[3]] = pid
+        sets = [("summary", "found %d" % rng.randint(0, 9))] if rng.random() < 0.5 else []
+        found_item[cand[3]] = add_found(cand, pid, sets)
+        plan.features.add("sync-found")
+        if cand[3] not in base.key.values():
+            plan.features.add("sync-found-child")
     # late sets
     for o in objs:
         for a, v in o.late.items():
@@ -477,21 +579,44 @@ def gen_plan(rng, base: Base, n: int, *, stable=True, malform=None, feature_bias
                 v = ref_to(v)
             by_parent.setdefault(id(o), (o, []))[1].append(("set", a, v))
             plan.features.add("set")
-    # the found-sync: the root function found in the function package, declared as a promise
-    root_promise = None
-    if rng.random() < 0.3:
-        pid_counter[0] += 1
-        root_promise = pid_counter[0]
-        plan.promise_target[root_promise] = base.key["F"]
-        ins = Instr(Ref("obj", base.fpkg))
-        sets = []
-        if rng.random() < 0.5:
-            sets.append(("summary", "root %d" % rng.randint(0, 9)))
-        ins.sync.append(("functions", [SItem(True, root_promise, base.name["F"], "F", [], sets, hint=rng.random() < 0.5, key=base.key["F"])]))
-        ins.sync[0][1][0]._obj = None
-        ins.root_sync = True
-        instrs.append(ins)
-        plan.features.add("sync-found")
+    # list-valued sets
+    for target, members in setlists:
+        refs, keys, kinds = [], [], []
+        for mb in members:
+            if isinstance(mb, Obj):
+                refs.append(ref_to(mb, allow_find=False))
+                keys.append(mb.key)
+                kinds.append("P")
+                continue
+            u, nm, typed_ok, untyped_ok = base.extraF[mb[1]]
+            keys.append(u)
+            r = rng.random()
+            if u in found_promise and r < 0.5:
+                refs.append(Ref("prom", u, p=found_promise[u]))
+                kinds.append("P")
+            elif typed_ok and r < 0.75:
+                f = {"name": nm} if (untyped_ok and rng.random() < 0.3) else {"_type": "LogicalFunction", "name": nm}
+                refs.append(Ref("obj", u, how="find", find=f))
+                kinds.append("F")
+            else:
+                refs.append(Ref("obj", u))
+                kinds.append("U")
+        tkey = base.key["C"] if isinstance(target, tuple) else target.key
+        plan.list_expect.append((tkey, "allocated_functions", keys))
+        for k_ in keys:
+            plan.ref_expect.append((tkey, k_))
+        plan.features.add("set-list")
+        plan.features.add("set-list:%d" % len(refs))
+        if "P" in kinds[:-1]:
+            plan.features.add("set-list:promise-before-other-member")
+        if len(set(kinds)) > 1:
+            plan.features.add("set-list:mixed")
+        if isinstance(target, tuple) and base.key["C"] in found_item and rng.random() < 0.5:
+            found_item[base.key["C"]][1].set.append(("allocated_functions", refs))     # `set` of a matched sync entry
+            plan.features.add("set-list:in-sync-entry")
+        else:
+            by_parent.setdefault(id(target) if isinstance(target, Obj) else target, (target, []))[1].append(
+                ("set", "allocated_functions", refs))
     for key, (p, payloads) in by_parent.items():
         rng.shuffle(payloads)
         # split into 1..k instructions
@@ -501,8 +626,8 @@ def gen_plan(rng, base: Base, n: int, *, stable=True, malform=None, feature_bias
                 chunks.append([])
             chunks[-1].append(pl)
         for ch in chunks:
-            if isinstance(p, tuple) and p[1] == "F" and root_promise is not None and rng.random() < 0.6:
-                pref = Ref("prom", base.key["F"], p=root_promise)
+            if isinstance(p, tuple) and base.key[p[1]] in found_promise and rng.random() < 0.6:
+                pref = Ref("prom", base.key[p[1]], p=found_promise[base.key[p[1]]])
             else:
                 pref = ref_to(p, allow_find=False)
             if pref.kind == "prom":
@@ -547,6 +672,10 @@ def gen_plan(rng, base: Base, n: int, *, stable=True, malform=None, feature_bias
         plan.features.add("chained-promises")
     if any(isinstance(v, Ref) and v.kind == "prom" for ins in instrs for _, v in ins.set):
         plan.features.add("set-promise-value")
+    if any(isinstance(v, Ref) and v.kind == "obj" for ins in instrs for _, v in ins.set):
+        plan.features.add("set-reference-value")
+    if any(isinstance(v, str) for ins in instrs for _, v in ins.set):
+        plan.features.add("set-scalar-value")
     # 6b. unstable stream: a list whose first member waits for a promise declared by another instruction
     if not stable:
         pid_counter[0] += 2
@@ -571,13 +700,20 @@ def gen_plan(rng, base: Base, n: int, *, stable=True, malform=None, feature_bias
     if malform == "unf":
         plan.expect = "unf"
         ghost = 900 + rng.randint(0, 9)
-        where = rng.choice(["parent", "set", "member", "attr"])
+        where = rng.choice(["parent", "set", "member", "attr", "setlist"])
         if where == "parent" or not instrs:
             ins = Instr(Ref("prom", "?", p=ghost))
             ins.set.append(("description", "never"))
             instrs.append(ins)
         elif where == "set":
             rng.choice(instrs).set.append(("zz_unused", Ref("prom", "?", p=ghost)))
+        elif where == "setlist":
+            # an undeclared promise inside a list-valued `set`, at any position
+            mem = [Ref("obj", base.key["F"]), Ref("prom", "?", p=ghost)]
+            rng.shuffle(mem)
+            ins = Instr(Ref("obj", base.key["C"]))
+            ins.set.append(("allocated_functions", mem))
+            instrs.append(ins)
         elif where == "member":
             cs = [o for o in objs if o.typ == "C" and not o.sync]
             ins = Instr(ref_to(cs[0], allow_find=False) if cs else Ref("obj", base.key["C"]))
@@ -590,32 +726,91 @@ def gen_plan(rng, base: Base, n: int, *, stable=True, malform=None, feature_bias
             instrs.append(ins)
         plan.features.add("undeclared:" + where)
     elif malform == "dup":
-        # a second object of the same type, in the same kind of list, declares an already declared promise id
-        declared = [o for o in objs if o.promise is not None]
-        if not declared:
-            o0 = rng.choice(objs)
-            need_promise(o0)
-            ins = Instr(ref_to(o0, allow_find=False))
-            ins.set.append(("summary", "dup user"))
-            o0.late["summary"] = "dup user"
-            o0.strs.pop("summary", None)
-            instrs.append(ins)
-            declared = [o0]
-        o = rng.choice(declared)
-        ins = Instr(ref_to(o.parent, allow_find=False))
-        twin = Obj(98, fresh_name(98), o.typ, o.parent, o.attr)
-        twin.promise = o.promise
-        if rng.random() < 0.6:
-            it = Item(name=twin.name, typ=o.typ, decl=o.promise)
-            it._obj = twin
-            ins.extend.append((o.attr, [it]))
+        # a promise id declared twice; the two declarations come from every origin: a created object (extend /
+        # create / nested / sync-created) or a matched sync entry — also two matched entries of the SAME object
+        # (both declarers have the same type: the generated users of the id — parents, values — fit either object)
+        variants = ["new+extend", "new+sync", "new+found", "found+new", "found+found-same", "found+found-same", "found+found-other"]
+        first, second = ((feature_bias or {}).get("dup") or rng.choice(variants)).split("+", 1)
+        ftypes = {c[2] for c in base.found}
+        if second == "found" and not any(o.promise is not None and o.typ in ftypes for o in objs):
+            second = rng.choice(["extend", "sync"])
+        if first == "new":
+            declared = [o for o in objs if o.promise is not None]
+            if not declared:
+                o0 = rng.choice(objs)
+                need_promise(o0)
+                ins = Instr(ref_to(o0, allow_find=False))
+                ins.set.append(("summary", "dup user"))
+                o0.late["summary"] = "dup user"
+                o0.strs.pop("summary", None)
+                instrs.append(ins)
+                declared = [o0]
+            if second == "found":
+                declared = [o for o in declared if o.typ in ftypes]
+            o = rng.choice(declared)
+            pid = o.promise
+            origin = "sync-created" if o.sync else ("nested" if o.inline else "extend")
+            cand = None
         else:
-            x = SItem(False, o.promise, twin.name, o.typ, [], [])
-            x._obj = twin
-            ins.sync.append((o.attr, [x]))
-        instrs.append(ins)
+            if found_promise:
+                u = rng.choice(sorted(found_promise))
+                pid, cand = found_promise[u], cand_of[u]
+                if second == "found-other" and not any(c[2] == cand[2] and c[3] != u for c in base.found):
+                    second = "found-same"
+            else:
+                if second == "found-other":
+                    multi = [c for c in base.found if sum(1 for c2 in base.found if c2[2] == c[2]) > 1]
+                    if not multi:
+                        second = "found-same"
+                cand = rng.choice(multi if second == "found-other" else base.found)
+                pid_counter[0] += 1
+                pid = pid_counter[0]
+                found_promise[cand[3]] = pid
+                found_item[cand[3]] = add_found(cand, pid, [])
+            origin = "sync-matched"
+        if second in ("extend", "sync"):
+            ins = Instr(ref_to(o.parent, allow_find=False))
+            twin = Obj(98, fresh_name(98), o.typ, o.parent, o.attr)
+            twin.promise = pid
+            if second == "extend":
+                it = Item(name=twin.name, typ=o.typ, decl=pid)
+                it._obj = twin
+                ins.extend.append((o.attr, [it]))
+            else:
+                x = SItem(False, pid, twin.name, o.typ, [], [])
+                x._obj = twin
+                ins.sync.append((o.attr, [x]))
+            instrs.append(ins)
+            second = {"extend": "extend", "sync": "sync-created"}[second]
+        elif second == "new":
+            t, attr = rng.choice([(t_, a_) for t_ in sorted(base.objs) for a_, ct in sorted(SCHEMA[t_]["lists"].items())
+                                  if ct == cand[2]])
+            twin = Obj(98, fresh_name(98), SCHEMA[t]["lists"][attr], bases[t], attr)
+            twin.promise = pid
+            it = Item(name=twin.name, typ=twin.typ, decl=pid)
+            it._obj = twin
+            ins = Instr(Ref("obj", base.key[t]))
+            getattr(ins, rng.choice(["extend", "create"])).append((attr, [it]))
+            instrs.append(ins)
+            second = "extend"
+        else:
+            if second == "found-other":
+                cand2 = rng.choice([c for c in base.found if c[3] != cand[3] and c[2] == cand[2]])
+            elif second == "found-same":
+                cand2 = cand
+            else:
+                cand2 = rng.choice([c for c in base.found if c[2] == o.typ])
+            sets = [("description", "declared a second time")] if rng.random() < 0.5 else []
+            same_list = second == "found-same" and rng.random() < 0.4
+            add_found(cand2, pid, sets, into=found_item[cand[3]][0] if same_list else None)
+            second = "sync-matched" + ("-same-object" if cand is not None and cand2[3] == cand[3] else "")
+        if rng.random() < 0.5:
+            ins = Instr(Ref("prom", "?", p=pid))          # somebody uses the id
+            ins.set.append(("description", "uses the duplicated id"))
+            instrs.append(ins)
         plan.expect = "dup"
         plan.features.add("duplicate")
+        plan.features.add(f"duplicate:{origin}+{second}")
     fix_all()
     rng.shuffle(instrs)
     plan.instrs = instrs
@@ -759,17 +954,47 @@ def canon_tree(model, base_ids, ordered=True) -> str:
     return "\n".join(ser(r) for _, r in roots)
 
 
+def raw_find(model, base_ids, key):
+    """the XML element designated by a key: the id of a base object, or the unique name of a created one"""
+    for tr in model._loader.trees.values():
+        for el in tr.root.iter():
+            if not isinstance(el.tag, str):
+                continue
+            if el.get("id") == key or (el.get("name") == key and el.get("id") not in base_ids):
+                return el
+    return None
+
+
+def raw_list_order(model, base_ids, owner_key, member_keys):
+    """the members (as keys) that the unnamed direct children of the owner element (allocation / link
+    elements) point at, in document order — what a list-valued `set` leaves behind, read from the raw XML"""
+    o = raw_find(model, base_ids, owner_key)
+    if o is None:
+        return None
+    ids = {}
+    for k in member_keys:
+        el = raw_find(model, base_ids, k)
+        if el is None:
+            return None
+        ids[el.get("id")] = k
+    out = []
+    for c in o:
+        if not isinstance(c.tag, str) or c.get("name"):
+            continue
+        for a, v in c.attrib.items():
+            if a == "id":
+                continue
+            for m_ in UUID_RE.findall(v):
+                if m_ in ids and m_ != o.get("id"):
+                    out.append(ids[m_])
+    return out
+
+
 def raw_refs_ok(model, base_ids, owner_key, target_key) -> bool:
     """the element designated by owner_key mentions the id of the element designated by target_key
     in its own attributes or in those of its unnamed direct children"""
     def find(key):
-        for tr in model._loader.trees.values():
-            for el in tr.root.iter():
-                if not isinstance(el.tag, str):
-                    continue
-                if el.get("id") == key or (el.get("name") == key and el.get("id") not in base_ids):
-                    return el
-        return None
+        return raw_find(model, base_ids, key)
     o, t = find(owner_key), find(target_key)
     if o is None or t is None:
         return False
@@ -815,6 +1040,9 @@ def run_impl(base: Base, instrs: list[Instr], obs_l, obs_v):
                     collect(x, ct)
     for t, o in base.objs.items():
         collect(objs[o.uuid], t)
+    for k in {k for k, _ in list(obs_l) + list(obs_v)}:
+        if k not in objs and k in base.ids:
+            objs[k] = model.by_uuid(k)
     lists = []
     for k, a in obs_l:
         o = objs.get(k)
@@ -826,7 +1054,7 @@ def run_impl(base: Base, instrs: list[Instr], obs_l, obs_v):
             vals.append(Err("KeyError"))
             continue
         v = getattr(o, a)
-        if v is None or v == "":
+        if v is None or v == "" or (isinstance(v, str) and base.init_vals.get((k, a)) == str(v)):
             # unset strings read back as "" — the model reports None for a never-written cell
             vals.append(None)
         elif isinstance(v, str):
@@ -843,6 +1071,10 @@ def observed_cells(plan: Plan, base: Base):
             obs_l.append((base.key[t], a))
     for t in ("F",):
         obs_v.append((base.key[t], "summary"))
+    for u in plan.found_keys:
+        for a in STRS:
+            if (u, a) not in obs_v:
+                obs_v.append((u, a))
     for o in plan.objs:
         for a in list(SCHEMA[o.typ]["lists"]) + list(SCHEMA[o.typ]["reflists"]):
             obs_l.append((o.key, a))
@@ -927,6 +1159,13 @@ def run(chk: lib.Check):
                 if not raw_refs_ok(ex["model"], base.ids, ok_, tk):
                     chk.violation(f"misdirected:{key}", f"object {ok_!r} does not reference {tk!r} in the XML", replay)
                     break
+            # ---- oracle 2b: a list-valued `set` leaves exactly its members, in the order the document lists them
+            for ok_, attr_, keys_ in plan.list_expect:
+                got_l = raw_list_order(ex["model"], base.ids, ok_, keys_)
+                if got_l != keys_:
+                    chk.violation(f"set-list-order:{key}", f"`set` of {attr_} of {ok_!r} to the list {keys_} left {got_l} in the XML "
+                                  "(a list value has to be resolved and written as a whole)", replay)
+                    break
             # ---- oracle 3: same canonical tree for every permutation
             c_ord = canon_tree(ex["model"], base.ids, ordered=True)
             if first is None:
@@ -974,6 +1213,12 @@ def run(chk: lib.Check):
             if len(plan.instrs) == 6:
                 one_document(plan, bases["empty52"], 6, 720)
                 done += 1
+    # the duplicate stream: every pair of origins of the two declarations, on small documents (all permutations)
+    for variant in ["new+extend", "new+sync", "new+found", "found+new", "found+found-same", "found+found-same", "found+found-other"]:
+        for tag in (["empty52"] if variant != "found+found-other" else [t for t in bases if t != "empty52"][:1]):
+            plan = gen_plan(rng, bases[tag], rng.choice([1, 2, 3]), stable=True, malform="dup",
+                            feature_bias={"dup": variant, "set-list": 0.2})
+            one_document(plan, bases[tag], limit_full, 8)
     # the unstable stream (known finding: sibling order)
     for d in range(8 if quick else 40):
         base = bases["empty52"]
